@@ -140,6 +140,24 @@ def run(ctx, report):
         if reads_expected and "national_checksum_digits" not in pos:
             r_algo.finding(f"{cc}:expected", f"{r.cls.qualname}.validate compares with the national check digits but {cc} defines no such field", r.where)
         if missing and struct_positions(reg, cc) is not None:
+            # "reads only fields the country defines", decided by behaviour: an undefined field is handed over as ''.  It is not *read* when the
+            # algorithm's outcomes are the same with the '' entries left out of the list (a concatenating algorithm such as the generic ISO 7064
+            # one, registered for countries with and without a branch code); an algorithm that takes its fields by position is judged otherwise.
+            comps_v = [component_value(reg, cc, c) for c in acc]
+            exp = component_value(reg, cc, "national_checksum_digits")
+            kept = [v for c, v in zip(acc, comps_v) if c not in missing]
+
+            def summary(vals):
+                _, outs_ = explore_method(facts, r, "validate", lambda it_, o: [list(vals), exp])
+                return sorted((o.kind, o.value.name if o.kind == "raise" else repr(o.value)) for o in outs_ if o.kind != "infeasible")
+            with_empty, without = summary(comps_v), summary(kept)
+            inst["undefined fields are inert"] = with_empty == without
+            if with_empty != without:
+                r_algo.finding(f"{cc}:reads-undefined", f"{r.cls.qualname} reads {missing}, which {cc} does not define (the table publishes {sorted(pos)}): "
+                               f"it takes its fields by position, is handed '' for the undefined one and so judges something other than the country's fields "
+                               f"(outcomes with the '' entries left out: {[k for k, _ in without][:3]})", r.where,
+                               witness={"country": cc, "accepts": acc, "defined": sorted(pos)})
+        if missing and struct_positions(reg, cc) is not None:
             comps_v = [component_value(reg, cc, c) for c in acc]
             exp = component_value(reg, cc, "national_checksum_digits")
             _, outs = explore_method(facts, r, "validate", lambda it_, o: [list(comps_v), exp])
